@@ -684,6 +684,11 @@ package diam
 //@   atcall Write: [C07] lock_held: locked(&w.mu)
 //@   atcall Flush: [C07] lock_held: locked(&w.mu)
 //@   ensures [C07] lock_released: !locked(&w.mu)
+//@   # C07 "whole and un-interleaved": the lock is taken per Write, so a message whose Write fails half way must not be
+//@   # followed by anybody else's bytes - the buffered writer is left in its failed state (bufio: every later Write and
+//@   # Flush returns the error), and a connection in that state stays in it
+//@   ensures [C07] a_message_cut_short_leaves_the_connection_unusable: !implements(w.conn.rwc, MultistreamConn) && err != nil ==> bwfailed(w.conn.buf.Writer)
+//@   ensures [C07] an_unusable_connection_stays_unusable: !implements(w.conn.rwc, MultistreamConn) && old(bwfailed(w.conn.buf.Writer)) ==> err != nil && bwfailed(w.conn.buf.Writer)
 //@ end
 //@
 //@ # ======================= AVP search (C20) =================================
